@@ -61,13 +61,17 @@ REG = {
                                            "needs more horizon than the engine allotted are skipped and counted",
                                            "pinned milestones count as placed before the priority loop (they need nobody and their date is given)"]),
     "C09": dict(module="vlib.props.meta", level="exploration",
-                rule="pairs (P, P + intruder): intruder = root-level leaf with strictly lowest priority, random effort/resource/pin/position, "
-                     "nothing depends on it; precondition 'same horizon' is observed from project end in both runs; non-trivial = the intruder "
+                rule="pairs (P, P + intruder): intruder = leaf with strictly lowest priority (own, or inherited from a container two levels "
+                     "up), random effort/resource/pin/position, nothing depends on it, in forward projects it may depend on others (also on "
+                     "task-level ALAP tasks); precondition 'same horizon' is observed from project end in both runs; non-trivial = the intruder "
                      "books a resource-day that P's tasks use; distinct = (mode, resolution, position first/last, pinned?, >1 shared day, limits?, "
                      "#resources); plus the two-task corollary",
                 quick=dict(cases=5000, budget_s=150, min_nontrivial=40, case_timeout=40),
                 thorough=dict(cases=40000, budget_s=900, min_nontrivial=150, case_timeout=60),
-                deciding_monitors=["pairs", "monitor:pick"], assumptions=BASE_ASSUME),
+                deciding_monitors=["pairs", "monitor:pick"],
+                assumptions=BASE_ASSUME + ["intruders name predecessors in forward projects only: in a backward project a task that names a "
+                                           "predecessor is placed first and in front of it, so something does depend on it there",
+                                           "intruders are plain ASAP tasks without maxgapduration / scheduling statements of their own"]),
     "C14": dict(module="vlib.props.meta", level="exploration",
                 rule="pairs (model, model with every date + k weeks), k in {1,4,26,52,53,104,157,209,313} or aimed at Jan 1-3 2021/2027/2033, "
                      "Dec 31, Feb 29; UTC projects without resource zones; durations in days/weeks; distinct = (k class, what the shifted window "
